@@ -13,7 +13,7 @@ from sa import facts  # noqa: E402
 
 
 # engine modules mention member names only as examples or generic tables: they do not make a member an anchor of a property
-ENGINE = {"indexmap", "ast", "algebra", "flow", "callargs", "signs", "report", "compdb", "facts", "roles", "selftest", "main", "effects"}
+ENGINE = {"indexmap", "ast", "algebra", "flow", "callargs", "signs", "report", "compdb", "facts", "roles", "selftest", "main", "effects", "dims", "dimrules"}
 
 
 def module_sources(name, seen=None):
@@ -45,6 +45,8 @@ def main():
     for f in prog.functions.values():
         if (f.get("qname") or "").startswith("vfps::") and f.get("class"):
             methods.add(f["name"])
+    classes = {q.split("::")[-1] for q in prog.records}
+    methods -= classes            # constructor names: a class name in a table (interface owners, scopes) is not an anchor of a rule
     out = {}
     for i in range(1, 21):
         mod = "C%02d" % i
